@@ -11,6 +11,7 @@ import (
 
 var c20PoolText = []string{
 	`1e-400`, `2e-400`, `4e-324`, `5e-324`, `1e400`, `1e-6000`, `[1e-400]`, `{"a":2e-400}`, `0.1e-399`,
+	`1844674407370955162`, `0.4`, `184467440737095517`, `0.84`, `18446744073709552`, `0.384`, `184467440737096`, `0.48384`, `922337203685477581`, `0.2`, `92233720368547759`, `0.92`, `9223372036854776`, `0.192`, `92233720368548`, `0.24192`, `429496730`, `42949673`, `0.04`, `4294968`, `0.704`, `42950`, `0.32704`,
 	`9223372036854775807`, `9223372036854775808`, `-9223372036854775808`, `9999999999999999999`, `-8446744073709551617`, `18446744073709551615`, `18446744073709551616`, `-1.0`, `[9223372036854775808]`, `{"a":-9223372036854775808}`,
 	`null`, `true`, `false`, `0`, `1`, `-1`, `1.0`, `1e0`, `10e-1`, `100`, `1e2`, `0.1`, `0.10`, `-0`, `0.0`, `2`, `9007199254740993`, `9007199254740992`,
 	`""`, `"0"`, `"1"`, `"true"`, `"false"`, `"null"`, `"a"`, `"A"`, `"é"`, `"é"`, `" "`, `"[]"`, `"{}"`,
@@ -297,6 +298,9 @@ var c20MatrixForms = []string{
 func c20Matrix(c *Ctx, idx int) {
 	r := c.Rand("")
 	n := 4 + r.Intn(9)
+	if idx%5 == 4 {
+		n = 33 + r.Intn(40) // above the sizes where a membership test might switch to an index
+	}
 	pool := &ref.Arr{E: make([]ref.V, 0, n)}
 	for len(pool.E) < n {
 		v := c20Pool[r.Intn(len(c20Pool))]
@@ -311,10 +315,20 @@ func c20Matrix(c *Ctx, idx int) {
 			pool.E = append(pool.E, respell(r, gen.Clone(v)))
 		}
 	}
+	if idx%5 == 4 {
+		for _, z := range []string{"0", "-0", "0.0", "-0.0", "0e5", "1", "1.0", "-1"} {
+			if r.Chance(50) {
+				pool.E[r.Intn(len(pool.E))] = gen.Num(z)
+			}
+		}
+	}
 	doc := ref.NewObj()
 	doc.Set("pool", pool)
 	goDoc := ref.ToGo(doc, ref.JSONNumber)
 	text := c20MatrixForms[idx%len(c20MatrixForms)]
+	if idx%5 == 4 {
+		text = gen.Pick(r, []string{"[contains(pool, `-0`), contains(pool, `0`), contains(pool, `0.0`), contains(pool, `-0.0`), contains(pool, `1.0`), contains(pool, `-1.0`)]", "pool[*].[contains($.pool, @)]", "{first: contains(pool, `7`), again: contains(pool, `-0`), third: contains(pool, `0`), pool: pool} | [again, third, contains(pool, `-0.0`)]", "[contains(pool, `0`), contains(pool, `-0`)] == [contains(pool, `-0`), contains(pool, `0`)]", "pool[?contains($.pool, @)] | length(@)", "let $z = `0` * `-1` in [contains(pool, $z), contains(pool, `0`)]"})
+	}
 	m, _ := c.CheckModel("C20", text, doc, goDoc, CheckOpts{Compiled: idx%2 == 0, Features: map[string]string{"form": "matrix"}})
 	if !m.Unspec {
 		c.Nontrivial(text, ref.ToJSONText(doc))
@@ -384,7 +398,7 @@ func perturb(r *gen.R, v ref.V) ref.V {
 func init() {
 	Register(&Property{
 		ID:            "C20",
-		Rule:          "a 74-value pool (incl. 19/20-digit integers around 2^63 and 2^64 and pairs differing by exactly 2^64) (nested containers, numerically equal numbers in different spellings inside containers, reordered members, near misses, 1 vs \"1\", true vs \"true\", 0 vs false, [] vs {} vs \"\" vs null): all ordered pairs through ==, !=, contains, filter equality and container wrappers via literals and via document fields, checked against deep type-strict model equality - with the numbers as json.Number and again as float64 / float32 / int64 / uint64 / decimal128 wherever the kind holds the value exactly, against literals and against each other - plus reflexivity/symmetry/negation; all triples (thorough; seeded sample in quick) for transitivity of the library's own ==; every value x value through !, &&, ||, filter predicates against the single false-like set with && / || returning an operand unchanged; seeded random nested values with one controlled perturbation (respelling/reordering keeps equality, one changed leaf breaks it); matrix stream: whole comparison matrices computed inside ONE evaluation (operands rebound per element through let / current node, so every comparison node is evaluated many times with different operand values and types), compared with the model; non-trivial = each judged pair/value/document",
+		Rule:          "a ~95-value pool (incl. pairs whose scaled coefficients collide modulo 2^64, 2^63 or 2^32) (incl. 19/20-digit integers around 2^63 and 2^64 and pairs differing by exactly 2^64) (nested containers, numerically equal numbers in different spellings inside containers, reordered members, near misses, 1 vs \"1\", true vs \"true\", 0 vs false, [] vs {} vs \"\" vs null): all ordered pairs through ==, !=, contains, filter equality and container wrappers via literals and via document fields, checked against deep type-strict model equality - with the numbers as json.Number and again as float64 / float32 / int64 / uint64 / decimal128 wherever the kind holds the value exactly, against literals and against each other - plus reflexivity/symmetry/negation; all triples (thorough; seeded sample in quick) for transitivity of the library's own ==; every value x value through !, &&, ||, filter predicates against the single false-like set with && / || returning an operand unchanged; seeded random nested values with one controlled perturbation (respelling/reordering keeps equality, one changed leaf breaks it); matrix stream: whole comparison matrices computed inside ONE evaluation (operands rebound per element through let / current node, so every comparison node is evaluated many times with different operand values and types), compared with the model; non-trivial = each judged pair/value/document",
 		MinNontrivial: 3000,
 		Streams: []Stream{
 			{Name: "pairs", Setup: c20Setup, N: func(c *Ctx) int { c20Setup(c); return len(c20Pool) * len(c20Pool) }, Run: c20Pairs, Exhaustive: true},
